@@ -304,7 +304,11 @@ def execute(plan, prop, out, tr):
                 out.declined("C13.kalman(cond)")
             else:
                 ex = np.abs(npd(xn) - xr).max() / (1 + np.abs(xr).max() + np.sqrt(np.abs(Pe).max()))
-                eP = np.abs(npd(Pn) - Pr).max() / (np.abs(Pr).max() + 1e1 * np.abs(info["Pm"]).max() * 2.3e-16 / TOL * TS + 1e-300)
+                # absolute round-off of forming a covariance from points / from P- - K S K^T: eps * (|P-| + |x| sqrt|P-|); it
+                # dominates when an accurate sensor makes the posterior orders of magnitude smaller than the prediction
+                pm_ = np.abs(info["Pm"]).max()
+                rnd_ = pm_ + (np.abs(xr).max() + np.abs(xe).max()) * np.sqrt(pm_)
+                eP = np.abs(npd(Pn) - Pr).max() / (np.abs(Pr).max() + 1e3 * rnd_ * 2.3e-16 / TOL * TS + 1e-300)
                 pri = "correlated" if offd else "diagonal"
                 if not (ex <= tol):
                     raise Violation("C13.mean", "%s step %d (%s prior, n=%d q=%d%s): posterior mean deviates from the "
